@@ -2254,7 +2254,7 @@ def distributed_shampoo(
     to_pad = -len(padded_statistics) % num_devices_for_pjit
     if max_size == 0:
       to_pad = num_devices_for_pjit
-      max_size = block_size
+      max_size = max(block_size, 1)
       stat_dtype = jnp.float32
     else:
       stat_dtype = padded_statistics[0].dtype
@@ -2428,7 +2428,7 @@ def distributed_shampoo(
     num_statistics += to_pad
     if num_statistics == 0:
       num_statistics = num_devices_for_pjit
-      max_statistics_size = block_size
+      max_statistics_size = max(block_size, 1)
     statistics_shape = [
         num_statistics, max_statistics_size, max_statistics_size
     ]
